@@ -21,8 +21,10 @@ structure D where
   mClosed : Bool
   mMin : Nat
   mFails : Nat           -- consecutive failed lookups reported by the implementation
+  dur : Nat              -- how long each following lookup takes
+  mLastDone : Nat        -- when the last reported lookup returned (start + dur)
 
-def dinit : D := ⟨W.init 0, [], false, 0, 0, none, 0, 0, false, 0, 0⟩
+def dinit : D := ⟨W.init 0, [], false, 0, 0, none, 0, 0, false, 0, 0, 0, 0⟩
 
 def parseLookups (s : String) : List (Nat × Bool) :=
   if s = "-" then [] else
@@ -46,7 +48,7 @@ def nextResult (d : D) : Bool × D :=
 /-- after a lookup: remember whether its follow-up timer is of unknown instant -/
 def afterLookup (d : D) (ok : Bool) (idxBefore : Nat) : D :=
   if ok then { d with unknownDue := false }
-  else { d with unknownDue := true, failAt := d.w.now, failIdx := idxBefore }
+  else { d with unknownDue := true, failAt := d.w.lastDone, failIdx := idxBefore }
 
 /-- fire every timer that is due up to time `to`; `obs` = lookup instants the implementation
     reported for this op (used only to resolve unknown backoff instants). Fuel-bounded. -/
@@ -66,9 +68,10 @@ def drain (fuel : Nat) (d : D) (to : Nat) (obs : List Nat) (acc : List (Nat × B
       if due ≤ to then
         let (ok, d) := nextResult d
         let idx := d.w.idx
-        let w' := GrpcModel.Dns.step d.w (.tick (max due d.w.now) ok 0)
+        let start := max due d.w.now
+        let w' := GrpcModel.Dns.step d.w (.tick start ok 0 d.dur)
         let d := afterLookup { d with w := w' } ok idx
-        drain fuel d to obs (acc ++ [(w'.now, ok)])
+        drain fuel d to obs (acc ++ [(start, ok)])
       else (d, acc)
     | _ => (d, acc)
 
@@ -87,19 +90,20 @@ def monitor (d : D) (isRn : Bool) (impl : String) : D × String :=
         if d.mClosed then "VIOL lookup after Close"
         else match d.mLast with
           | none => verdict
-          | some (t1, true) =>
-            if t < t1 + d.mMin then "VIOL lookup sooner than MinResolutionInterval after a successful one"
+          | some (_, true) =>
+            if t < d.mLastDone + d.mMin then "VIOL lookup sooner than MinResolutionInterval after a successful one (counted from its return)"
             else if d.mPost + 1 > d.mRn then "VIOL re-resolution without a ResolveNow request"
             else verdict
-          | some (t1, false) =>
+          | some (_, false) =>
             let k := d.mFails
+            let t1 := d.mLastDone
             if t < t1 + backoffLo k ∨ t > t1 + backoffHi k then
               s!"VIOL retry after failure outside the backoff band k={k}: delay {t - t1}"
             else verdict
       let d := match d.mLast with
         | some (_, true) => { d with mPost := d.mPost + 1 }
         | _ => d
-      go { d with mLast := some (t, ok), mFails := if ok then 0 else d.mFails + 1 } rest v
+      go { d with mLast := some (t, ok), mLastDone := t + d.dur, mFails := if ok then 0 else d.mFails + 1 } rest v
   go d ls "ok"
 
 def render (d : D) (ls : List (Nat × Bool)) : String := s!"t={d.w.now} lookups={showLookups ls}"
@@ -110,13 +114,17 @@ def dstep : Step D := fun d fs impl =>
   | ["script", s] =>
     let d := { d with script := d.script ++ s.toList.map (· == 'o') }
     (d, render d [], "-")
+  | ["dur", n] =>
+    match n.toNat? with
+    | some k => let d := { d with dur := k }; (d, render d [], "-")
+    | none => (d, "bad-op", "-")
   | ["build", m] =>
     match m.toNat? with
     | none => (d, "bad-op", "-")
     | some mi =>
       let (ok, d) := nextResult { d with w := W.init mi, mMin := mi }
       let idx := d.w.idx
-      let w' := GrpcModel.Dns.step d.w (.build ok 0)
+      let w' := GrpcModel.Dns.step d.w (.build ok 0 d.dur)
       let d := afterLookup { d with w := w' } ok idx
       let (d, more) := drain 64 d d.w.now (obs.drop 1) [(0, ok)]
       let (d, v) := monitor d false impl
@@ -135,7 +143,7 @@ def dstep : Step D := fun d fs impl =>
       let d := finish d to
       let (d, v) := monitor d false impl
       -- a retry armed after a failure that is overdue beyond the band is a violation too
-      let v := if d.unknownDue ∧ to > d.failAt + backoffHi d.failIdx ∧ !d.mClosed then
+      let v := if d.unknownDue ∧ d.w.now > d.failAt + backoffHi d.failIdx ∧ !d.mClosed then
                  "VIOL no retry within the backoff band after a failed lookup" else v
       (d, render d ls, v)
   | ["close"] =>
